@@ -36,7 +36,8 @@ def run(ctx):
                 "and missing x ignore_missing x dense arrays for xcube in int8..uint64 or iindex.to_array() x explicit/inferred shape; "
                 "values hidden under False validity = NaN/inf/-inf/1.5e300/0/same; boundary stream: extent products 255/256/257/65535/"
                 "65536/65537 and first-dimension-wide shapes with rows in the last cells (sparse evaluation beyond 1024 cells); "
-                "zero-dimension stream; dtype sweep; dyadic inputs compared exactly inside Coq, plus a float stream judged within "
+                "zero-dimension stream; dtype sweep; weight-spread stream (one or two rows weigh 2**20..2**40 next to 0.25..7, all dyadic, compared "
+                "exactly); decimal-weights stream (0.9, 1.2, 1.3 ... with absent categories, tolerance stream); dyadic inputs compared exactly inside Coq, plus a float stream judged within "
                 "1e-9 of the grand total by the exact oracle; a case = one (call, format) literal, non-trivial when N > 0 and the "
                 "cube has >= 1 dimension or a fact/weight")
     ctx.trusted = list(core.STD_TRUSTED) + [
@@ -94,13 +95,17 @@ def run(ctx):
     for rep in range(40 if thorough else 8):
         for kind in ca.KINDS:
             one(ca.zero_dim_case(rng, kind), "zero-dim")
+    for i in range(3000 if thorough else 250):
+        one(ca.spread_case(rng), "weight-spread")
+    for i in range(6000 if thorough else 400):
+        one(ca.decimal_case(rng, absent=(i % 2 == 0)), "decimal-weights")
     n_float = 15000 if thorough else 600
     for i in range(n_float):
         one(ca.float_case(rng), "float")
 
     ctx.coverage.update({"real_calls": S.calls, "calls_compared_in_coq": len(S.lits), "float_stream_calls": n_float,
                          "distribution": dict(sorted(S.dist.items()))})
-    ctx.evaluations = len(S.lits) + n_float
+    ctx.evaluations = len(S.lits) + n_float + S.dist.get("stream:decimal-weights", 0)
     res = core.run_cases("c03", ca.PRELUDE, S.lits, ca.CASE_TYPE, ca.CHECK_EXPR, ca.EXPLAIN_EXPR,
                          shard_size=2000 if thorough else 120)
     ca.conclude(ctx, "C03", pr, S, res, THEOREMS, HOW)
